@@ -184,6 +184,56 @@ def _flat(v):
         yield v
 
 
+REPEAT_PATTERNS = ["a.*", "[a-c]+", "ab?c", "(a|b)c", "[^a]b", ".", "",
+                   # valid I-Regexps whose VALUE the specification does not pin (reversed range, {n,m} with n > m, ...):
+                   # whatever they select, they select it every time
+                   "[z-a]", "a{2,1}", "x{3,2}y", "[b-a]*", "a{7}", "[c-a]b", "\\p{Lu}a"]
+
+
+def history_independence(chk: core.Check, tier: str, seed: int) -> None:
+    """The same (query, document) on a fresh environment and in the middle of a long history on a long-lived
+    one (other patterns, other queries, failed compilations in between): TLC checks that all outcomes coincide
+    (and equal Eval!Find where the specification pins the value)."""
+    from . import common  # noqa: PLC0415
+
+    jp = core.import_repo()
+    rng = random.Random(seed)
+    doc = {"t": [{"s": "abc"}, {"s": "aab"}, {"s": "b"}, {"s": "xxxy"}, {"s": "zz"}, {"s": "Aa"}, {"s": 1}, {"z": 0}], "p": "a.*", "n": 2}
+    battery = []
+    for p in REPEAT_PATTERNS:
+        lit = "'" + p + "'"
+        battery += [f"$.t[?match(@.s, {lit})]", f"$.t[?search(@.s, {lit})]", f"$.t[?!match(@.s, {lit}) && @.s]"]
+    battery += ["$.t[?match(@.s, $.p)]", "$.t[?search(@.s, $.p)]", "$.t[?length(@.s) > $.n]", "$.t[?@.s == $.t[0].s]", "$..[?@.s]", "$.t[*].s",
+                "$.t[?count(@.*) == 1]", "$.t[?value(@.*) == 'b']", "$.t[1:5:2]", "$.t[?@.s < 'b']"]
+    docs = [doc, dict(doc, p="[z-a]"), dict(doc, p="a{2,1}")]
+    edocs = [core.enc_value(d) for d in docs]
+
+    def outcome(env, q, d):
+        try:
+            return ["ok", [core.enc_loc(n.location) for n in env.find(q, d)]]
+        except Exception as err:  # noqa: BLE001
+            return ["raise", type(err).__name__]
+
+    results = {}
+    for k, d in enumerate(docs):
+        for q in battery:
+            results[(q, k)] = [outcome(jp.JSONPathEnvironment(), q, d)]
+    long_lived = [jp.JSONPathEnvironment(), jp]
+    for env in long_lived:
+        for _ in range(3 if tier == "quick" else 12):
+            order = [(q, k) for q in battery for k in range(len(docs))]
+            rng.shuffle(order)
+            for q, k in order:
+                results[(q, k)].append(outcome(env, q, docs[k]))
+                if rng.random() < 0.1:
+                    outcome(env, "$[?match(@.s, ", docs[k])          # a failed compilation in between
+    recs = [{"op": "repeat", "q": core.enc_text(q), "doc": edocs[k], "results": res} for (q, k), res in results.items()]
+    for r in recs:
+        chk.nontrivial.add(("repeat", tuple(r["q"]), str(r["doc"])[-40:]))
+    chk.notes["history_independence_records"] = len(recs)
+    common.judge(chk, recs, "c14_repeat", what="Trace: the same call on a fresh environment and inside long histories")
+
+
 def run(chk: core.Check, tier: str, seed: int) -> None:
     core.import_repo()
     maxops = 3 if tier == "quick" else 4
@@ -216,6 +266,7 @@ def run(chk: core.Check, tier: str, seed: int) -> None:
             chk.violation({"clause": bad["clause"], "op": bad["op"]},
                           {"history": g["hist"], "failure": bad, "queries": QTEXT})
     chk.traces += len(gens)
+    history_independence(chk, tier, seed)
     chk.sample({"history": gens[len(gens) // 2]["hist"]})
     chk.sample({"walk_prefix": walks[0]["hist"][:6], "walk_length": len(walks[0]["hist"])})
     chk.exhaustive = True
